@@ -155,12 +155,22 @@ static void debug_message_with_location (const char *err) {
     }
 }
 
+#ifdef NEOLITH_VERIF
+/* verification trace point: called with the machine registers and control stack of the failing
+ * evaluation still intact, before the master's error handler is applied */
+void (*verif_error_hook) (const char *err, int catch_flag) = 0;
+#endif
+
 static void mudlib_error_handler (const char *err, int catch_flag) {
   mapping_t *m;
   char *file;
   int line;
   svalue_t *mret;
 
+#ifdef NEOLITH_VERIF
+  if (verif_error_hook)
+    verif_error_hook (err, catch_flag);
+#endif
   m = allocate_mapping (6);
   add_mapping_string (m, "error", err);
   if (current_prog)
